@@ -596,7 +596,7 @@ def _call(node, ctx):
             if inner[0] == "call" and inner[1] == "Mod":
                 return a
         if name == "floor":
-            ctx.near(x, round(x), _simple(args[0]))
+            ctx.near(x, round(x), _exact(args[0], ctx))
             # a computed argument within rounding distance of an integer - including 0, where a relative test sees nothing: the two sides
             # of the jump are both "the value to within float64 rounding" (cos(acos(0)) is 6e-17, symbolically it is 0)
             if not _exact(args[0], ctx) and abs(x - round(x)) <= 1e-9 * (1.0 + ctx.maxabs):
@@ -620,7 +620,7 @@ def _call(node, ctx):
         av, bv = _val(a), _val(b)
         q = av / bv
         ctx.maxabs = max(ctx.maxabs, abs(av))
-        ctx.near(q, round(q), _simple(args[0]) and _simple(args[1]))
+        ctx.near(q, round(q), _exact(args[0], ctx) and _exact(args[1], ctx))
         if not (_exact(args[0], ctx) and _exact(args[1], ctx)) and abs(q - round(q)) * abs(bv) <= 1e-9 * (1.0 + ctx.maxabs + abs(bv)):
             ctx.fragile = True  # a computed dividend within rounding distance of a multiple of the divisor (log(exp(4e-76)) is 0.0 in floats)
         if av < 0 or bv < 0:
@@ -632,7 +632,7 @@ def _call(node, ctx):
     if name in RELS:
         a = _num(ev(args[0], ctx))
         b = _num(ev(args[1], ctx))
-        ctx.near(a, b, _simple(args[0]) and _simple(args[1]))
+        ctx.near(a, b, _exact(args[0], ctx) and _exact(args[1], ctx))  # a plain intermediate name is a computed value, not an exact operand
         a, b = _val(a), _val(b)
         if ctx.strict_rel:
             return {"Lt": a < b, "Gt": a > b, "Le": a < b, "Ge": a > b, "Eq": a == b}[name]
